@@ -607,6 +607,8 @@ func genCase() *rapid.Generator[Case] {
 					switch {
 					case rapid.IntRange(0, 4).Draw(t, "del") == 0 && !c.Cfg.Typed:
 						st.Vals[key] = "~delete"
+					case !c.Cfg.Typed && rapid.IntRange(0, 5).Draw(t, "null") == 0:
+						st.Vals[key] = "null" // a property stored as JSON null is a present property
 					case key == "n":
 						st.Vals[key] = rapid.SampledFrom(nums).Draw(t, "num")
 					default:
@@ -621,6 +623,9 @@ func genCase() *rapid.Generator[Case] {
 			case "create":
 				if strings.HasPrefix(st.RID, "svc.m.") {
 					st.V = fmt.Sprintf(`{"a":%s,"n":%s}`, rapid.SampledFrom(strs).Draw(t, "a"), rapid.SampledFrom(nums).Draw(t, "n"))
+					if !c.Cfg.Typed && rapid.IntRange(0, 3).Draw(t, "withnull") == 0 {
+						st.V = fmt.Sprintf(`{"a":%s,"b":null}`, rapid.SampledFrom(strs).Draw(t, "a"))
+					}
 				} else {
 					st.V = rapid.SampledFrom([]string{`[]`, `["x"]`, `[1,2,"a"]`}).Draw(t, "coll")
 				}
